@@ -64,7 +64,9 @@ def gen_extension(r, name=None, small=False):
     return e
 
 
-def build_extension(e):
+def build_extension(e, eager=False):
+    """eager: the extension is serialized after every single addition (a document asked for while the extension is
+    still growing must not freeze anything: the final document reflects everything that was added)"""
     from hugr import ext, tys
     from semver import Version
 
@@ -76,6 +78,8 @@ def build_extension(e):
     for df in e["types"]:
         td = B.typedef(df)
         td.description = df.get("description", "")
+        if eager:
+            x.to_json()
     for op in e["ops"]:
         if op["body"] is None:
             sig = ext.OpDefSig(None, binary=True)
@@ -83,7 +87,11 @@ def build_extension(e):
             sig = ext.OpDefSig(tys.PolyFuncType([B.param(p) for p in op["params"]], B.func(op["body"])),
                                binary=op["binary"])
         x.add_op_def(ext.OpDef(op["name"], sig, op["description"], dict(op["misc"])))
+        if eager:
+            x.to_json()
     vb = VBuilder(B)
     for v in e["values"]:
+        if eager:
+            x.to_json()
         x.add_extension_value(ext.ExtensionValue(v["name"], vb.val(v["val"])))
     return x
